@@ -264,8 +264,8 @@ func runFaultSuite(rep *Report, tier string, seed int64, prop string) {
 		"(read/write of requests/responses, marshal/unmarshal, encode/decode) and the link context is cancelled at every operation index; then the application closes the transport. " +
 		"C03 oracle: every in-flight call returns with a non-nil error unless its response arrived, later calls fail at once. C16 oracle: Link returns promptly the injected error / the context's error. distinct = fault cases that fired"
 	ks := []int{0, 2}
-	maxPer := 6
-	repeat := 1
+	maxPer := 8
+	repeat := 2
 	if tier == "thorough" {
 		ks = []int{0, 1, 4, 12}
 		maxPer = 24
@@ -318,5 +318,66 @@ func runFaultSuite(rep *Report, tier string, seed int64, prop string) {
 			}
 		}
 	}
+	if prop == "C16" {
+		n := 300
+		if tier == "thorough" {
+			n = 6000
+		}
+		for i := 0; i < n; i++ {
+			rep.Evaluations++
+			if msg := c16Hammer(i); msg != "" {
+				rep.addViolation("property", "C16:hammer", msg, map[string]any{"suite": "C16-hammer", "note": "a read error is injected while 8 goroutines keep calling through the dying link; repeated, the window is a few hundred nanoseconds wide"})
+				break
+			}
+		}
+		rep.Extra["hammer_repetitions"] = n
+	}
 	_ = seed
+}
+
+// c16Hammer: the response read fails while several goroutines keep issuing calls on the link;
+// their follow-up failures (closed table, context) must never be what Link returns.
+func c16Hammer(i int) string {
+	codec := jsonRaw()
+	plan := NewFaultPlan()
+	p, err := NewPair(codec, PairOpts{API: "message", Plan: plan})
+	if err != nil {
+		return ""
+	}
+	ra, _, _ := p.A.AnyRemote()
+	stop := make(chan struct{})
+	var wg sync.WaitGroup
+	for g := 0; g < 8; g++ {
+		wg.Add(1)
+		go func() {
+			defer wg.Done()
+			for {
+				select {
+				case <-stop:
+					return
+				default:
+				}
+				ra.Echo(context.Background(), 1, "h")
+			}
+		}()
+	}
+	time.Sleep(time.Duration(50+(i%7)*30) * time.Microsecond)
+	plan.FailNext("A.readRes")
+	msg := ""
+	select {
+	case e := <-p.A.LinkErr:
+		var inj *injectedError
+		if !errors.As(e, &inj) {
+			msg = fmt.Sprintf("Link returned %q although the failure that ended the link was the injected response-read error (calls hammering the dying link)", e)
+		}
+	case <-time.After(watchdog):
+		msg = "Link did not return after a read error under load"
+	}
+	close(stop)
+	p.A.Cancel()
+	p.B.Cancel()
+	p.CloseTransport()
+	wg.Wait()
+	p.wg.Wait()
+	return msg
 }
